@@ -323,3 +323,75 @@ def run(ctx):
                     'and the derived type cannot be read back' % (sorted(a_) or 'nothing', sorted(b_) or 'nothing'), key='TWIN:erltf_serde_derive:field-name-transforms')
     else:
         ctx.info_note('derive macro generators not found (crate erltf_serde_derive not part of this build)')
+
+    # wide integers come back from the wire as big integers: the helper that turns them into i64 must not turn away a value that fits
+    ctx.rule('C15.2-bigint-acceptance', 'the big-integer -> i64 helper answers None only where the value cannot fit: at every `None` it returns, either the digit count is shown to exceed 8 bytes '
+             'or the 64-bit magnitude is shown to be at least 2^63 (interval analysis at the return site)', floor=1)
+    from ..ranges import Ranges as _Rng
+    helpers = [q for q, b_ in ctx.F.bodies.items() if q.startswith('erltf_serde::') and b_['kind'] in ('Fn', 'AssocFn') and b_.get('argc', 0) >= 1
+               and any('BigInt' in b_['locals'][i]['ty'] for i in range(1, b_['argc'] + 1)) and b_['locals'][0]['ty'] == 'core::option::Option<i64>']
+    HB = P.B(helpers[0]) if helpers else None
+    if ctx.anchor(HB is not None, 'a helper of erltf_serde taking a BigInt and returning Option<i64>'):
+        Rh = _Rng(HB)
+        mag = [(bb, t) for bb, t in HB.calls() if (callee_of(t)[0] or '').endswith('::from_le_bytes') or (callee_of(t)[0] or '').endswith('::from_be_bytes')]
+        k_ = 0
+        for bb, j, st in HB.stmts():
+            if not (st['k'] == '=' and st['rv']['k'] == 'agg' and st['rv'].get('adt') == 'core::option::Option' and st['rv'].get('var') == 'None'):
+                continue
+            if not (st['pl']['l'] == 0 or 0 in HB.derived_locals([st['pl']['l']])):
+                continue
+            k_ += 1
+            inst = 'bigint_to_i64:None#%d' % k_
+            where = ctx.where(HB, ln=st['ln'])
+            dom = [(mb, mt) for mb, mt in mag if HB.block_dominates(mb, bb) and mb != bb]
+            if dom:
+                mb, mt = dom[-1]
+                lo, hi = Rh.range_of({'k': 'cp', 'pl': mt['dst']}, bb)
+                if lo >= 2 ** 63:
+                    ctx.ok('C15.2-bigint-acceptance', inst, 'magnitude in [%s, %s]: does not fit i64' % (lo, hi), where)
+                else:
+                    ctx.bad('C15.2-bigint-acceptance', inst, 'None is returned for magnitudes from %s on, but every magnitude up to 2^63-1 (and 2^63 for a negative value) is an i64: such a value serialises to a big integer and fails to deserialise' % lo,
+                            where, key='RANGE:erltf_serde::de::bigint_to_i64:rejects-fitting-value')
+            else:
+                lens = [(lb, lt) for lb, lt in HB.calls() if (callee_of(lt)[0] or '').endswith('::len') and HB.block_dominates(lb, bb)]
+                lo = None
+                for lb, lt in lens:
+                    r_ = Rh.range_of({'k': 'cp', 'pl': lt['dst']}, bb)
+                    lo = r_[0] if lo is None else max(lo, r_[0])
+                if lo is not None and lo >= 9:
+                    ctx.ok('C15.2-bigint-acceptance', inst, 'digit count >= %s: more than 8 bytes' % lo, where)
+                elif lo is None:
+                    ctx.undecided('C15.2-bigint-acceptance', inst, 'None returned before the magnitude is formed and no digit count in sight', where)
+                else:
+                    ctx.bad('C15.2-bigint-acceptance', inst, 'None is returned for big integers of %s digit bytes on, although up to 8 bytes may hold an i64' % lo, where,
+                            key='RANGE:erltf_serde::de::bigint_to_i64:rejects-short-digits')
+        ctx.anchor(bool(mag), 'the magnitude is formed with from_le_bytes / from_be_bytes')
+
+    # a char is up to four bytes of UTF-8: where the deserialiser hands out a char, the byte length of the text it came from
+    # must not have been pinned below 4 (a byte length standing in for a character count turns every non-ASCII char away)
+    ctx.rule('C15.2-char-width', 'at every visit_char the interval analysis allows the byte length of the source text to reach 4: no test on the way there restricts it to fewer bytes than a character may have', floor=1)
+    n_vc = 0
+    for q in sorted(ctx.F.bodies):
+        if not (q.startswith('<') and 'erltf_serde::de::' in q and q.split('::{')[0].endswith('::deserialize_char')):
+            continue
+        CB_ = P.B(q)
+        Rc = _Rng(CB_)
+        lens = [(lb, lt) for lb, lt in CB_.calls() if (callee_of(lt)[0] or '').rsplit('::', 1)[-1] == 'len' and lt.get('dst')]
+        for vb, vt in CB_.calls():
+            if not any(n.endswith('::visit_char') for n in callee_names(vt)):
+                continue
+            n_vc += 1
+            inst = '%s:visit_char@%d' % (q.split(' as ')[0].lstrip('<&mut ').split("<")[0], n_vc)
+            worst = None
+            for lb, lt in lens:
+                if not CB_.block_dominates(lb, vb):
+                    continue
+                r_ = Rc.range_of({'k': 'cp', 'pl': lt['dst']}, vb)
+                if r_[1] < 4:
+                    worst = r_
+            if worst is not None:
+                ctx.bad('C15.2-char-width', inst, 'the char is handed out only when the byte length of its text is in [%s, %s]: every character of more than %s byte(s) (U+0080 and up) is refused after a trip through bytes' % (worst[0], worst[1], worst[1]),
+                        ctx.where(CB_, vb), key='RANGE:%s:char-byte-length' % q.split('::{')[0])
+            else:
+                ctx.ok('C15.2-char-width', inst, 'no byte-length restriction below 4 on the way to visit_char', ctx.where(CB_, vb))
+    ctx.anchor(n_vc >= 1, 'visit_char calls in deserialize_char')
